@@ -17,8 +17,10 @@ for m in repo.modules.values():
     for q, f in fs.items():
         fp = alpha.fingerprints(f.node)
         it = alpha.if_tests(f.node)
-        if fp or it:
-            out[keys[q]] = {'l': fp, 'i': it}
+        cm = alpha.compares(f.node)
+        bo = alpha.boolops(f.node)
+        if fp or it or cm or bo:
+            out[keys[q]] = {'l': fp, 'i': it, 'c': cm, 'b': bo}
 import hashlib
 out['__modules__'] = {m.rel(): hashlib.sha1(m.src.encode()).hexdigest() for m in repo.modules.values()}
 os.makedirs(os.path.join(HERE, 'baseline'), exist_ok=True)
